@@ -332,6 +332,61 @@ theorem scale_factory_fixed_spec (arg : ScaleArg) (nDims : Option Nat) :
               rw [e]
               exact ⟨fun _ => rfl, fun o ho => by cases ho⟩
 
+private theorem mkUniformScale_ok (vals : List Rat) (n : Nat) (hn : n = 2 ∨ n = 3) : ∃ o, mkUniformScale vals n = .ok o := by
+  have : (n == 2 || n == 3) = true := by rcases hn with h | h <;> simp [h]
+  simp only [mkUniformScale, this, if_true]; exact ⟨_, rfl⟩
+
+private theorem mkNonUniformScale_ok (ks : List Rat) (hn : ks.length = 2 ∨ ks.length = 3) :
+    ∃ o, mkNonUniformScale ks = .ok o := by
+  have : (ks.length == 2 || ks.length == 3) = true := by rcases hn with h | h <;> simp [h]
+  simp only [mkNonUniformScale, this, if_true]; exact ⟨_, rfl⟩
+
+/-- … and it ANSWERS when it should (`ScaleSpec` alone would be met by a factory that refuses everything): non-zero
+factors in a 2-D/3-D setting give a scale object — a number with `n_dims ∈ {2, 3}`; 2 or 3 factors without `n_dims`;
+factors with `n_dims ∈ {2, 3}` when they are all equal or as many as `n_dims` -/
+theorem scale_factory_fixed_answers :
+    (∀ (k : Rat) (n : Nat), k ≠ 0 → (n = 2 ∨ n = 3) → ∃ o, scaleFactoryFixed (.scalar k) (some n) = .ok o) ∧
+    (∀ ks : List Rat, (∀ x ∈ ks, x ≠ 0) → (ks.length = 2 ∨ ks.length = 3) → ∃ o, scaleFactoryFixed (.array ks) none = .ok o) ∧
+    (∀ (ks : List Rat) (n : Nat), ks ≠ [] → (∀ x ∈ ks, x ≠ 0) → (n = 2 ∨ n = 3) →
+      ((∀ x ∈ ks, ∀ y ∈ ks, x = y) ∨ ks.length = n) → ∃ o, scaleFactoryFixed (.array ks) (some n) = .ok o) := by
+  have hzero : ∀ ks : List Rat, (∀ x ∈ ks, x ≠ 0) → ¬ (ks.any (· == 0)) = true := by
+    intro ks hnz h; simp only [List.any_eq_true, beq_iff_eq] at h
+    obtain ⟨x, hx, h0⟩ := h; exact hnz x hx h0
+  refine ⟨?_, ?_, ?_⟩
+  · intro k n hk hn
+    have e : scaleFactoryFixed (.scalar k) (some n) = mkUniformScale [k] n := by
+      simp [scaleFactoryFixed, scaleFactoryCoded, hk]
+    rw [e]; exact mkUniformScale_ok _ _ hn
+  · intro ks hnz hl
+    have hz := hzero ks hnz
+    cases ks with
+    | nil => simp at hl
+    | cons k t =>
+      by_cases hall : ((k :: t).all (· == k)) = true
+      · have e : scaleFactoryFixed (.array (k :: t)) none = mkUniformScale [k] (k :: t).length := by
+          simp only [scaleFactoryFixed, scaleFactoryCoded, hz, hall]; simp
+        rw [e]; exact mkUniformScale_ok _ _ hl
+      · have e : scaleFactoryFixed (.array (k :: t)) none = mkNonUniformScale (k :: t) := by
+          simp only [scaleFactoryFixed, scaleFactoryCoded, hz, hall]; simp
+        rw [e]; exact mkNonUniformScale_ok _ hl
+  · intro ks n hne hnz hn hor
+    have hz := hzero ks hnz
+    cases ks with
+    | nil => exact absurd rfl hne
+    | cons k t =>
+      by_cases hall : ((k :: t).all (· == k)) = true
+      · have e : scaleFactoryFixed (.array (k :: t)) (some n) = mkUniformScale (k :: t) n := by
+          simp only [scaleFactoryFixed, hz, hall]; simp
+        rw [e]; exact mkUniformScale_ok _ _ hn
+      · have hlen : (k :: t).length = n := by
+          rcases hor with heq | hl
+          · exact absurd heq (not_all_eq_head hall)
+          · exact hl
+        have hl' : ((k :: t).length == n) = true := by simp [hlen]
+        have e : scaleFactoryFixed (.array (k :: t)) (some n) = mkNonUniformScale (k :: t) := by
+          simp only [scaleFactoryFixed, hz, hall, hl']; simp
+        rw [e]; exact mkNonUniformScale_ok _ (hlen ▸ hn)
+
 /-- THE CODED FACTORY meets the property whenever `n_dims` is not combined with an array … -/
 theorem scale_factory_coded_spec (arg : ScaleArg) (nDims : Option Nat)
     (h : nDims = none ∨ ∃ k, arg = .scalar k) : ScaleSpec arg (scaleFactoryCoded arg nDims) := by
